@@ -13,7 +13,7 @@ shape, linear (dense), const, sense, ub, lb, obj, qmat, xmat.
 """
 import sys, os, json, subprocess, random
 from fractions import Fraction
-sys.path.insert(0, '/repo')
+sys.path.insert(0, os.environ.get('RSOME_REPO', '/repo'))
 import numpy as np
 import rsome as rso
 from rsome.gcp import Model
